@@ -39,24 +39,59 @@ def cases(tier):
                 for opts in ({"optimize_with_greedy": False}, {"optimize_with_greedy": False, "use_min_gen_set_lowerbound": True},
                              {"optimize_with_greedy": False, "optimize_with_guessed_weights": True, "use_min_gen_set_lowerbound": True}):
                     yield dict(edges=edges_of(H), wt="int", opts=opts)
+    # fractional float flows (weights below 1), MILP and greedy route
+    for n in (3, 4):
+        for gi, G in enumerate(graphs.dags(n)):
+            if gi % (4 if tier == "quick" else 2):
+                continue
+            for H, f in list(graphs.flows_from_paths(G))[:2]:
+                for opts in ({}, {"optimize_with_greedy": False}):
+                    yield dict(edges=[[u, v, x / 8.0] for u, v, x in edges_of(H)], wt="float", opts=opts)
+    # explicitly ignored element carrying a stale small value, plus by-pass elements without any value (ignored too): the minimum is over
+    # the non-ignored part, whatever the ignored values say
+    for a, b in ((5, 3), (2, 2), (4, 1)):
+        for stale in (1, 0, 9):
+            E = [["s1", "u", a], ["s2", "u", b], ["u", "v", stale], ["v", "t1", a], ["v", "t2", b], ["u", "x", None], ["y", "v", None]]
+            for wt in ("int", "float"):
+                for opts in ({}, {"optimize_with_greedy": False}):
+                    yield dict(edges=E, wt=wt, opts=opts, ign=[["u", "v"], ["u", "x"], ["y", "v"]])
+    # length-based coverage of a constraint, one constraint edge without the length attribute (counts as 1 on BOTH sides of the row)
+    for cov_len in (0.6, 0.5, 1.0):
+        E = [["s", "b", 3], ["b", "c", 3], ["c", "x", 3], ["y", "b2", 5], ["b2", "c", 5], ["c", "d", 5]]
+        lengths = {("s", "b"): 2, ("c", "x"): 1, ("y", "b2"): 1, ("b2", "c"): 1, ("c", "d"): 2}       # (b, c) has none
+        for opts in ({}, {"optimize_with_greedy": False}):
+            yield dict(edges=E, wt="int", opts=opts, cons=[[["s", "b"], ["b", "c"], ["c", "d"]]], cov_len=cov_len, lengths=[[list(e), l] for e, l in lengths.items()])
 
 
 def check(case):
     import flowpaths as fp
     wt = int if case["wt"] == "int" else float
     G = mkgraph(case["edges"])
-    flow = {(u, v): f for u, v, f in case["edges"]}
+    flow = {(u, v): f for u, v, f in case["edges"] if f is not None}
+    lengths = {tuple(e): l for e, l in case.get("lengths", [])}
+    for e, l in lengths.items():
+        G[e[0]][e[1]]["len"] = l
     R = [O.route_mult(p) for p in O.routes_dag(G)]
     cons = [[tuple(e) for e in c] for c in case.get("cons", [])]
     ign = [tuple(e) for e in case.get("ign", [])]
-    opt = O.fd_min(R, flow, wt, ignore=ign, constraints=cons or None)
+    cov_len = case.get("cov_len")
+    if cov_len is not None:
+        opt = O.fd_min(R, flow, wt, ignore=ign, constraints=cons or None, coverage=cov_len, lengths={e: lengths.get(e, 1) for e in G.edges()})
+    else:
+        opt = O.fd_min(R, flow, wt, ignore=ign, constraints=cons or None)
     kw = {}
+    if cov_len is not None:
+        kw.update(subpath_constraints_coverage_length=cov_len, length_attr="len")
     if cons:
         kw["subpath_constraints"] = cons
     if ign:
         kw["elements_to_ignore"] = ign
-    m = fp.MinFlowDecomp(G, flow_attr="flow", weight_type=wt, optimization_options=dict(case["opts"]), **kw)
-    ok = m.solve()
+    try:
+        m = fp.MinFlowDecomp(G, flow_attr="flow", weight_type=wt, optimization_options=dict(case["opts"]), **kw)
+        ok = m.solve()
+    except Exception as e:          # the input is inside the documented domain: an exception is a failure of "solve() succeeds"
+        return dict(ok=False, nontrivial=True, fingerprint="MinFlowDecomp raised on a positive conserving DAG flow",
+                    what="%s: %s on %s opts=%s (oracle minimum %s)" % (type(e).__name__, str(e)[:120], case["edges"], case["opts"], opt), detail=dict(oracle=opt))
     if not ok or not m.is_solved():
         return dict(ok=False, nontrivial=True, fingerprint="MinFlowDecomp unsolved on a positive conserving DAG flow",
                     what="solve() = %s on %s (oracle minimum %s)" % (ok, case["edges"], opt), detail=dict(oracle=opt))
@@ -67,6 +102,12 @@ def check(case):
         if not r:
             return dict(ok=False, nontrivial=True, fingerprint="MinFlowDecomp returned a non-route", what=why, detail=dict(paths=paths))
     for cst in cons:
+        if cov_len is not None:
+            tot = sum(lengths.get(e, 1) for e in cst)
+            if not any(sum(lengths.get(e, 1) for e in cst if e in list(zip(p, p[1:]))) >= cov_len * tot - 1e-9 for p in paths):
+                return dict(ok=False, nontrivial=True, fingerprint="MinFlowDecomp: a subpath constraint is covered to less than the requested length fraction in every returned path",
+                            what="constraint %s, coverage_length %s, paths %s on %s opts=%s" % (cst, cov_len, paths, case["edges"], case["opts"]), detail=dict(paths=paths))
+            continue
         if not any(all((a, b) in list(zip(p, p[1:])) for (a, b) in cst) for p in paths):
             return dict(ok=False, nontrivial=True, fingerprint="MinFlowDecomp: a subpath constraint is contained in no returned path", what="constraint %s, paths %s on %s opts=%s" % (cst, paths, case["edges"], case["opts"]),
                         detail=dict(paths=paths))
